@@ -123,8 +123,11 @@ def main(tier):
     nth = 181 if quick else 721
     th = np.linspace(0.0, np.pi, nth)
     th[(nth - 1) // 2] = np.pi / 2; th[-1] = np.pi
-    th = np.unique(np.concatenate([th, rng.uniform(0, np.pi, 8)]))
+    # forward and backward scattering are where 1 - cos(theta) and 1 + cos(theta) cancel: approach both ends geometrically
+    near = np.concatenate([10.0 ** -np.arange(2.0, 8.5, 0.5), np.pi - 10.0 ** -np.arange(2.0, 8.5, 0.5)])
+    th = np.unique(np.concatenate([th, rng.uniform(0, np.pi, 8), near]))
     nth = len(th)
+    inear = np.nonzero(np.isin(th, near))[0]
     iz, ih, ip = int(np.argmin(np.abs(th))), int(np.argmin(np.abs(th - np.pi / 2))), nth - 1
     assert th[iz] == 0.0 and th[ih] == np.pi / 2 and th[ip] == np.pi
     ph = np.unique(np.concatenate([[0.0, np.pi / 2, np.pi, 3 * np.pi / 2], np.linspace(0, 2 * np.pi, 13 if quick else 25)[:-1],
@@ -303,7 +306,7 @@ def main(tier):
     M = 8
     phm = 2 * np.pi * np.arange(M) / M
     e_sub = np.arange(0, len(E), 2 if quick else 4)
-    t_sub = np.unique(np.concatenate([np.arange(0, nth, 3), [iz, ih, ip]]))
+    t_sub = np.unique(np.concatenate([np.arange(0, nth, 3), [iz, ih, ip], inear]))
     E3, T3, P3 = [x.ravel() for x in np.meshgrid(E[e_sub], th[t_sub], phm, indexing='ij')]
     pk = L.call('DCSP_KN', E3, T3, P3)
     T2t, P2t = [x.ravel() for x in np.meshgrid(th, phm, indexing='ij')]
@@ -330,7 +333,7 @@ def main(tier):
 
     # general (E, theta, phi) grid: positivity, limit, symmetries
     e_sub = np.arange(0, len(E), 4 if quick else 8)
-    t_sub = np.unique(np.concatenate([np.arange(0, nth, 6 if quick else 12), [iz, ih, ip]]))
+    t_sub = np.unique(np.concatenate([np.arange(0, nth, 6 if quick else 12), [iz, ih, ip], inear[::2]]))
     E3, T3, P3 = [x.ravel() for x in np.meshgrid(E[e_sub], th[t_sub], ph, indexing='ij')]
     A3 = E3 / MEC2
     T2t, P2t = [x.ravel() for x in np.meshgrid(th[t_sub], ph, indexing='ij')]
@@ -401,6 +404,35 @@ def main(tier):
         nneg += int(r.err.sum())
         st['cells'].add((fn + ':error-for-non-positive-energy', -999))
     st['compared']['non-positive-energy-errors'] = nneg
+
+    # ---- "for all positive energies": the smallest positive doubles (normal and subnormal) ---------------------------------
+    Etiny = np.array([5e-324, 1e-320, 1e-310, 2.2250738585072014e-308, 4.4501477170144028e-308, 1e-307, 1e-300, 1e-200, 1e-100, 1e-30])
+    tt = np.array([0.0, 1e-3, 1.0, np.pi / 2, 3.0, np.pi, -2.0, 7.0])
+    Et, Tt_ = [x.ravel() for x in np.meshgrid(Etiny, tt, indexing='ij')]
+    r_kn, r_ce, r_pk = L.multi([('DCS_KN', Et, Tt_), ('ComptonEnergy', Et, Tt_), ('DCSP_KN', Et, Tt_, 0.3 + 0 * Tt_)])
+    r_cs = L.call('CS_KN', Etiny)
+    r_th = L.call('DCS_Thoms', Tt_)
+    r_pt = L.call('DCSP_Thoms', Tt_, 0.3 + 0 * Tt_)
+    calls += 5 * len(Et) + len(Etiny)
+    positive('DCS_KN', r_kn, Et, lambda k: 'DCS_KN(%s, %s)' % (fmt(Et[k]), fmt(Tt_[k])))
+    positive('ComptonEnergy', r_ce, Et, lambda k: 'ComptonEnergy(%s, %s)' % (fmt(Et[k]), fmt(Tt_[k])))
+    positive('DCSP_KN', r_pk, Et, lambda k: 'DCSP_KN(%s, %s, 0.3)' % (fmt(Et[k]), fmt(Tt_[k])))
+    positive('CS_KN', r_cs, Etiny, lambda k: 'CS_KN(%s)' % fmt(Etiny[k]))
+    with np.errstate(invalid='ignore', divide='ignore'):
+        # at these energies E/MEC2 is far below one ulp: the Compton energy IS E and Klein-Nishina IS Thomson, to rounding
+        Rel(ck, st, 'ComptonEnergy', 'outside-[E/(1+2E/mc2),E]').check(
+            Et, r_ce.ok & ~(np.abs(r_ce.v - Et) <= 8 * U * Et), lambda k: 'ComptonEnergy(%s, %s) = %s, expected E to rounding' % (fmt(Et[k]), fmt(Tt_[k]), fmt(r_ce.v[k])),
+            lambda k: dict(call='ComptonEnergy(%s, %s)' % (fmt(Et[k]), fmt(Tt_[k])), returned=fmt(r_ce.v[k])), compared=r_ce.ok)
+        Rel(ck, st, 'DCS_KN', 'low-energy-limit').check(
+            Et, r_kn.ok & r_th.ok & ~(np.abs(r_kn.v - r_th.v) <= 16 * U * r_th.v), lambda k: 'DCS_KN(%s, %s) = %s but DCS_Thoms = %s' % (fmt(Et[k]), fmt(Tt_[k]), fmt(r_kn.v[k]), fmt(r_th.v[k])),
+            lambda k: dict(call='DCS_KN(%s, %s)' % (fmt(Et[k]), fmt(Tt_[k])), returned=fmt(r_kn.v[k]), thomson=fmt(r_th.v[k])), compared=r_kn.ok & r_th.ok)
+        Rel(ck, st, 'DCSP_KN', 'low-energy-limit').check(
+            Et, r_pk.ok & r_pt.ok & ~(np.abs(r_pk.v - r_pt.v) <= 16 * U * RE2), lambda k: 'DCSP_KN(%s, %s, 0.3) = %s but DCSP_Thoms = %s' % (fmt(Et[k]), fmt(Tt_[k]), fmt(r_pk.v[k]), fmt(r_pt.v[k])),
+            lambda k: dict(call='DCSP_KN(%s, %s, 0.3)' % (fmt(Et[k]), fmt(Tt_[k])), returned=fmt(r_pk.v[k]), DCSP_Thoms=fmt(r_pt.v[k])), compared=r_pk.ok & r_pt.ok)
+        SIGT_ = 8 * PI / 3 * RE2
+        Rel(ck, st, 'CS_KN', 'low-energy-limit').check(
+            Etiny, r_cs.ok & ~(np.abs(1 - r_cs.v / SIGT_) <= TOL_BOUND), lambda k: 'CS_KN(%s) = %s, Thomson total %s' % (fmt(Etiny[k]), fmt(r_cs.v[k]), fmt(SIGT_)),
+            lambda k: dict(call='CS_KN(%s)' % fmt(Etiny[k]), returned=fmt(r_cs.v[k]), thomson_total=fmt(SIGT_)), compared=r_cs.ok)
 
     # ---- verdict --------------------------------------------------------------------------------------------------------
     n_inc = st['inconclusive_points']['CS_KN:integral']
